@@ -28,7 +28,8 @@ def sortByMask (l : List Format) : List Format := l.foldl (fun acc f => insertBy
 def formatList : List Format := sortByMask formats
 
 def isVOP3bOpcode (op : Nat) : Bool :=
-  op == 281 || op == 282 || op == 283 || op == 284 || op == 285 || op == 286 || op == 480 || op == 481
+  op == 281 || op == 282 || op == 283 || op == 284 || op == 285 || op == 286 || op == 480 || op == 481 ||
+  op == 488 || op == 489   -- v_mad_u64_u32 / v_mad_i64_i32 carry out to SDST (added by the C03 repair)
 
 def formatOf (ft : Nat) : Option Format := formats.find? (·.ft == ft)
 
@@ -63,6 +64,16 @@ def allRows : List Row := rowsBefore ++ copies ++ rowsAfter
 
 /-- `lookUp`: map semantics — the last `addInstType` for (format, opcode) wins -/
 def lookUp (ft op : Nat) : Option Row := lastRow allRows ft op
+
+/-- `lookUp` of a disassembler with `IsCDNA3`: the rows of `initializeCDNA3DecodeTable`
+    (`Gen.cdna3Rows`: opcodes that CDNA3 defines differently, e.g. VOP1 0x38 = `v_mov_b64`) are
+    consulted first; `lookUp` of the shared table otherwise. -/
+def lookUpArch (cdna3 : Bool) (ft op : Nat) : Option Row :=
+  if cdna3 then
+    (match lastRow cdna3Rows ft op with
+     | some r => some r
+     | none => lookUp ft op)
+  else lookUp ft op
 
 /-! ## Operands -/
 
@@ -310,7 +321,14 @@ def decodeFLAT (cdna3 : Bool) (i : Inst) (lo hi : Nat) : Outcome :=
                saddr := some (.int 0 sa), addr := some (vreg ab ab addrCnt),
                dst := some (vreg db db cnt), data := some (vreg tb tb cnt) }
 
-def decodeSMEM (i : Inst) (lo hi : Nat) : Outcome :=
+/-- immediate OFFSET of SMEM: 20 bits unsigned on GCN3; on GFX9+ (`d.IsCDNA3`) a 21-bit signed byte
+    offset (repaired: the decoder used to read 20 unsigned bits on both) -/
+def smemImm (cdna3 : Bool) (hi : Nat) : Int :=
+  if cdna3 then
+    (if extractBits hi 0 20 ≥ 2 ^ 20 then (extractBits hi 0 20 : Int) - 2 ^ 21 else (extractBits hi 0 20 : Int))
+  else (extractBits hi 0 19 : Int)
+
+def decodeSMEM (cdna3 : Bool) (i : Inst) (lo hi : Nat) : Outcome :=
   let imm := extractBits lo 17 17 != 0
   let bb := extractBits lo 0 5 * 2
   match getOperand (extractBits lo 6 12) with
@@ -327,7 +345,7 @@ def decodeSMEM (i : Inst) (lo hi : Nat) : Outcome :=
     let o := extractBits hi 0 19
     .ok { i with glc := extractBits lo 16 16 != 0, imm := imm,
                  base := some (sreg bb bb 2), data := some dt,
-                 offset := some (if imm then .int 0 o else sreg o o 1) }
+                 offset := some (if imm then .int 0 (smemImm cdna3 hi) else sreg o o 1) }
 
 def regCountOfWidth (w : Nat) : Nat := if w == 64 then 2 else if w == 96 then 3 else if w == 128 then 4 else 1
 
@@ -414,7 +432,7 @@ def dec4 (i : Inst) (row : Row) (w : Nat) : Option Dec4 :=
   else none
 
 def dec8 (cdna3 : Bool) (i : Inst) (row : Row) (lo hi : Nat) : Option Outcome :=
-  if i.ft == FT_SMEM then some (decodeSMEM i lo hi)
+  if i.ft == FT_SMEM then some (decodeSMEM cdna3 i lo hi)
   else if i.ft == FT_FLAT then some (decodeFLAT cdna3 i lo hi)
   else if i.ft == FT_VOP3a then some (decodeVOP3a i row lo hi)
   else if i.ft == FT_VOP3b then some (decodeVOP3b i row lo hi)
@@ -456,7 +474,7 @@ def decodeWith (look : Nat → Nat → Option Row) (cdna3 : Bool) (buf : List Na
   if buf.length < 4 then .err
   else decodeCore look cdna3 (le32 buf 0) (if buf.length ≥ 8 then some (le32 buf 4) else none)
 
-def decode (cdna3 : Bool) (buf : List Nat) : Outcome := decodeWith lookUp cdna3 buf
+def decode (cdna3 : Bool) (buf : List Nat) : Outcome := decodeWith (lookUpArch cdna3) cdna3 buf
 
 /-! ## Spec-side encoder and expected instruction
 
@@ -546,11 +564,8 @@ def withLit (l : Option Nat) (o : Opnd) : Opnd :=
   | some v => setLit o v
   | none => o
 
-/-- the instruction a well-formed description denotes (what decoding its encoding must give) -/
-def instOf (d : Desc) : Inst :=
-  match lookUp d.ft d.op with
-  | none => default
-  | some row =>
+/-- the instruction a description denotes once its table row is known -/
+def instOfRow (d : Desc) (row : Row) : Inst :=
     let i : Inst := { name := row.name, ft := d.ft, opcode := d.op,
                       size := if (encSecond d).isSome then 8 else 4 }
     if d.ft == FT_SOP2 then
@@ -594,6 +609,13 @@ def instOf (d : Desc) : Inst :=
                data := some dt,
                offset := some (if d.imm != 0 then .int 0 d.offset else sreg d.offset d.offset 1) }
     else i
+
+/-- the instruction a well-formed description denotes on an architecture (what decoding its
+    encoding must give): the row is the one the architecture's `lookUp` returns -/
+def instOf (c : Bool) (d : Desc) : Inst :=
+  match lookUpArch c d.ft d.op with
+  | none => default
+  | some row => instOfRow d row
 
 def formatByName (s : String) : Option Nat := (formats.find? (·.name == s)).map (·.ft)
 
@@ -680,7 +702,7 @@ def handle (line : String) : String :=
     | none => "bad"
   | "c04" :: "inst" :: fmt :: toks =>
     match parseDesc fmt toks with
-    | some d => if wellFormed d then "ok " ++ (instOf d).str else "illformed"
+    | some d => if wellFormed d then "ok " ++ (instOf false d).str else "illformed"
     | none => "bad"
   | ["c04", "nrows"] => toString (allRows.filter fun r => (lookUp r.ft r.opcode).map (·.name) == some r.name).length
   | _ => "bad"
